@@ -27,6 +27,7 @@ ObsOK == LET o == Ev.state
             /\ ToSet(o.ong) = x.ong /\ ToSet(o.fee) = x.fee /\ o.splitFee = x.splitFee
             /\ ToSet(o.attr) = x.attr /\ ToSet(o.black) = x.black
             /\ o.dappFee = x.dappFee /\ o.hasDapp = x.hasDapp
+            /\ o.splitNum = x.splitNum /\ o.pA = x.pA /\ o.pB = x.pB /\ o.candNum = x.candNum
 
 TInit == l = 2 /\ Init
 TReset == /\ IsEvent("Reset")
@@ -43,6 +44,8 @@ TReset == /\ IsEvent("Reset")
           /\ promise' = [p \in Peers |-> -1]
           /\ black' = {}
           /\ dappFee' = DappFee /\ hasDapp' = HasDapp
+          /\ splitNum' = (IF P2Stored THEN SplitNum ELSE -1)
+          /\ pA' = A /\ pB' = B /\ candNum' = CandNum
           /\ nops' = 0 /\ act' = [name |-> "Init"]
           /\ ObsOK
 TCall == /\ IsEvent("Call")
